@@ -1041,6 +1041,49 @@ def run_witness(binpath, w):
                     fh.write(json.dumps(req) + "\n")
             cmd = [binpath, "reftest-lsp", f]
             stdin = None
+        elif kind == "lsp-stdio":
+            # the real server loop: `garden lsp` fed Content-Length framed messages on stdin; an input item is a JSON
+            # message, or {"raw": text} for a body sent as it is, or {"frame": text} for bytes sent without a header.
+            # The framed answers are re-printed one JSON value per line, so the usual oracles apply.
+            data = b""
+            for it in w["input"]:
+                if isinstance(it, dict) and set(it) == {"frame"}:
+                    data += it["frame"].encode("utf-8")
+                    continue
+                body = (it["raw"] if isinstance(it, dict) and set(it) == {"raw"} else json.dumps(it)).encode("utf-8")
+                data += b"Content-Length: %d\r\n\r\n" % len(body) + body
+            try:
+                p = subprocess.run([binpath, "lsp"], input=data, capture_output=True, timeout=w.get("timeout", 60), cwd=tmpdir)
+                rc, raw, err = p.returncode, p.stdout, p.stderr.decode("utf-8", "replace")
+            except subprocess.TimeoutExpired as e:
+                rc, raw, err = "timeout", e.stdout or b"", ""
+            outs, pos = [], 0
+            while True:
+                m = re.compile(rb"Content-Length: (\d+)\r\n(?:[^\r\n]+\r\n)*\r\n").search(raw, pos)
+                if not m:
+                    break
+                n_ = int(m.group(1))
+                outs.append(raw[m.end():m.end() + n_].decode("utf-8", "replace"))
+                pos = m.end() + n_
+            out = "\n".join(outs) + "\n"
+            cmd = None
+            full_out = out
+            obs = {"cmd": "lsp (stdin, %d framed messages)" % len(w["input"]), "exit": rc, "stdout": out[-1500:], "stderr": err[-1500:]}
+            exp = w.get("expect", {})
+            why = []
+            if rc == 101 or "panicked at" in err:
+                why.append("process panicked")
+            if rc == "timeout":
+                why.append("timeout")
+            if "exit" in exp and rc != exp["exit"]:
+                why.append("exit status %s, expected %s" % (rc, exp["exit"]))
+            if "py" in exp:
+                r = eval(exp["py"], {"rc": rc, "out": out, "err": err, "json": json, "re": re, "jsons": _jsons, "full_out": full_out})
+                if r:
+                    why.append(str(r))
+            obs["reproduced"] = bool(why)
+            obs["why"] = "; ".join(why)
+            return obs
         elif kind == "json-session":
             f = os.path.join(tmpdir, "s.jsonl")
             with open(f, "w", encoding="utf-8") as fh:
